@@ -552,16 +552,34 @@ func runWirePart(c *Ctx, work string, sp *WireSpec) (Coverage, int, error) {
 	if err := writeNDJSON(schemasPath, len(run.schemas), func(i int) interface{} { return run.schemas[i] }); err != nil {
 		return nil, 2, infra("%v", err)
 	}
-	casesPath := filepath.Join(work, "cases.ndjson")
-	if err := writeNDJSON(casesPath, len(run.cases), func(i int) interface{} { return run.cases[i] }); err != nil {
-		return nil, 2, infra("%v", err)
-	}
 	devs := c.OpenDevs(sp.DevProps...)
+	// shards of whole cases: events are grouped by case (their order within a case is kept), each shard gets the events
+	// of a range of cases and only those cases; memory per TLC process stays bounded whatever the run's size
 	nShards := 12
 	if nEvents < 2000 {
 		nShards = 1 + nEvents/200
 	}
+	if nEvents > 12*150000 {
+		nShards = nEvents/150000 + 1
+	}
 	per := (len(eventLines) + nShards - 1) / nShards
+	// shard boundaries at case boundaries
+	type span struct{ lo, hi, cidLo, cidHi int }
+	var spans []span
+	for lo := 0; lo < len(eventLines); {
+		hi := lo + per
+		if hi >= len(eventLines) {
+			hi = len(eventLines)
+		} else {
+			last := cidOf(eventLines[hi-1])
+			for hi < len(eventLines) && cidOf(eventLines[hi]) == last {
+				hi++
+			}
+		}
+		spans = append(spans, span{lo, hi, cidOf(eventLines[lo]), cidOf(eventLines[hi-1])})
+		lo = hi
+	}
+	nShards = len(spans)
 	type shardRes struct {
 		res      *tlc.Result
 		verdicts []verdict
@@ -571,19 +589,25 @@ func runWirePart(c *Ctx, work string, sp *WireSpec) (Coverage, int, error) {
 	results := make([]shardRes, nShards)
 	var wg sync.WaitGroup
 	t2 := time.Now()
+	sem := make(chan struct{}, 12)
 	for s := 0; s < nShards; s++ {
-		lo, hi := s*per, (s+1)*per
-		if hi > len(eventLines) {
-			hi = len(eventLines)
-		}
-		if lo >= hi {
-			continue
+		lo, hi := spans[s].lo, spans[s].hi
+		cidLo, cidHi := spans[s].cidLo, spans[s].cidHi
+		if cidLo < 1 {
+			cidLo = 1
 		}
 		wg.Add(1)
 		go func(s, lo, hi int) {
 			defer wg.Done()
+			sem <- struct{}{}
+			defer func() { <-sem }()
 			dir := filepath.Join(work, fmt.Sprintf("judge%d", s))
 			_ = os.MkdirAll(dir, 0o755)
+			casesPath := filepath.Join(dir, "cases.ndjson")
+			if err := writeNDJSON(casesPath, cidHi-cidLo+1, func(i int) interface{} { return run.cases[cidLo-1+i] }); err != nil {
+				results[s].err = err
+				return
+			}
 			ep := filepath.Join(dir, "events.ndjson")
 			f, err := os.Create(ep)
 			if err != nil {
@@ -597,10 +621,10 @@ func runWirePart(c *Ctx, work string, sp *WireSpec) (Coverage, int, error) {
 			}
 			w.Flush()
 			f.Close()
-			cfg := fmt.Sprintf("CONSTANTS\n  Prop = %q\n  Devs = %s\nSPECIFICATION Spec\nINVARIANT Done\nPOSTCONDITION TraceAccepted\nCHECK_DEADLOCK FALSE\n",
-				sp.JudgeProp, tlaSet(devs))
+			cfg := fmt.Sprintf("CONSTANTS\n  Prop = %q\n  Devs = %s\n  CidBase = %d\nSPECIFICATION Spec\nINVARIANT Done\nPOSTCONDITION TraceAccepted\nCHECK_DEADLOCK FALSE\n",
+				sp.JudgeProp, tlaSet(devs), cidLo-1)
 			r := &tlc.Run{SpecDir: specDir, Scratch: dir, Module: "Trace_Wire", Cfg: cfg, Workers: 1, Timeout: 30 * time.Minute,
-				Files: map[string]string{"schemas.ndjson": schemasPath, "cases.ndjson": casesPath},
+				Files: map[string]string{"schemas.ndjson": schemasPath},
 				OnLine: func(tag, js string) {
 					switch tag {
 					case "V":
